@@ -10,7 +10,7 @@ COMMON_ASSUME = [
 PROPS = {
     "C01": {
         "level": "exploration",
-        "scenarios": {"gp": {"quick": 250000, "thorough": 6000000, "thorough_time": 900}},
+        "scenarios": {"gp": {"quick": 160000, "quick_time": 150, "thorough": 6000000, "thorough_time": 900}},
         "rule": "one evaluation = one seeded simulated execution (generated reader/updater program on a seed-chosen flavor, "
                 "membarrier mode, knobs, SC or TSO, scheduling strategy). Non-trivial = at least one read-side critical section "
                 "was open while some synchronize_rcu() caller was waiting; distinct = distinct 64-bit fingerprints of the event log "
@@ -20,7 +20,7 @@ PROPS = {
     },
     "C02": {
         "level": "exploration",
-        "scenarios": {"gp_live": {"quick": 250000, "thorough": 6000000, "thorough_time": 900}},
+        "scenarios": {"gp_live": {"quick": 160000, "quick_time": 150, "thorough": 6000000, "thorough_time": 900}},
         "rule": "one evaluation = one seeded simulated execution of readers/updaters with small spin-attempt knobs so the futex path is common, "
                 "with injected futex/poll faults (spurious return, EINTR, per-call ENOSYS on FUTEX_WAIT, whole-run ENOSYS fallback). "
                 "Oracles: deadlock detector at any time; after every script issued its last operation faults stop and every call must "
@@ -34,7 +34,7 @@ PROPS = {
 
 PROPS["C03"] = {
     "level": "exploration",
-    "scenarios": {"callrcu": {"quick": 150000, "thorough": 4000000, "thorough_time": 900}},
+    "scenarios": {"callrcu": {"quick": 100000, "quick_time": 150, "thorough": 4000000, "thorough_time": 900}},
     "rule": "one evaluation = one seeded simulated execution of 1-5 threads mixing call_rcu() (plain, self-freeing, re-enqueueing up to 2 deep, "
             "reclaiming an unpublished object), read-side sections, per-thread helpers (futex-woken or RT polling) created and freed with callbacks pending, "
             "per-CPU helpers on 1/2/4 simulated CPUs with migrating sched_getcpu, free_all_cpu_call_rcu_data and single per-CPU teardown, then three rcu_barrier() calls. "
@@ -45,7 +45,7 @@ PROPS["C03"] = {
 }
 PROPS["C04"] = {
     "level": "exploration",
-    "scenarios": {"barrier": {"quick": 150000, "thorough": 4000000, "thorough_time": 900}},
+    "scenarios": {"barrier": {"quick": 100000, "quick_time": 150, "thorough": 4000000, "thorough_time": 900}},
     "rule": "same generator as C03 weighted towards concurrent rcu_barrier() callers (qsbr: online and offline), with helper creation/destruction in flight. "
             "Oracle at every rcu_barrier() return: every callback whose call_rcu() had returned before the barrier was entered has finished executing; deadlock detector and quiet-phase bound for termination. "
             "Non-trivial = a barrier returned after waiting for at least one callback that finished during the call; distinct = distinct event-log fingerprints.",
@@ -54,7 +54,7 @@ PROPS["C04"] = {
 }
 PROPS["C14"] = {
     "level": "exploration",
-    "scenarios": {"poll": {"quick": 150000, "thorough": 4000000, "thorough_time": 900}},
+    "scenarios": {"poll": {"quick": 100000, "quick_time": 150, "thorough": 4000000, "thorough_time": 900}},
     "rule": "one evaluation = one seeded simulated execution in which several threads take start_poll_synchronize_rcu() handles at arbitrary points of in-flight grace periods and poll them, "
             "next to readers, updaters and call_rcu() users. Oracles: a true poll implies every section begun before that start_poll call has ended; once true never false again; every handle becomes true within the quiet-phase bound. "
             "Non-trivial = a handle's wait overlapped an open section; distinct = distinct event-log fingerprints.",
@@ -64,7 +64,7 @@ PROPS["C14"] = {
 
 PROPS["C13"] = {
     "level": "exploration",
-    "scenarios": {"defer": {"quick": 200000, "thorough": 5000000, "thorough_time": 900}},
+    "scenarios": {"defer": {"quick": 120000, "quick_time": 150, "thorough": 5000000, "thorough_time": 900}},
     "rule": "one evaluation = one seeded simulated execution of 1-4 threads registered for defer_rcu() queuing (function, argument) pairs with adversarial bit patterns "
             "(NULL, 1, -1, the internal marker value -2, -3, odd values, a function at an odd address), bursts that wrap and fill a 8/16/32-entry queue (knob), "
             "explicit rcu_defer_barrier()/rcu_defer_barrier_thread(), unregister + re-register, readers of an object reclaimed through defer_rcu(), and threads that stop calling the API and wait for the background reclaimer. "
@@ -77,7 +77,7 @@ PROPS["C13"] = {
 
 PROPS["C10"] = {
     "level": "exploration",
-    "scenarios": {"wfcq": {"quick": 250000, "thorough": 8000000, "thorough_time": 900}},
+    "scenarios": {"wfcq": {"quick": 160000, "quick_time": 150, "thorough": 8000000, "thorough_time": 900}},
     "rule": "one evaluation = one seeded simulated execution of 2-4 threads on two cds_wfcq queues (or the legacy cds_wfq): enqueue, blocking / with_state / non-blocking dequeue, empty(), "
             "splice in both directions (blocking and non-blocking), first/next iteration, in the locked multi-consumer or the lock-free single-consumer scheme; dequeued nodes are freed at once (tracked arena). "
             "Oracle: exact WGL linearizability check of the recorded history (<= 30 ops) against a FIFO model in which enqueue reports was-non-empty, splice is drain-then-append inside its call, "
@@ -87,7 +87,7 @@ PROPS["C10"] = {
 }
 PROPS["C11"] = {
     "level": "exploration",
-    "scenarios": {"stacks": {"quick": 250000, "thorough": 8000000, "thorough_time": 900}},
+    "scenarios": {"stacks": {"quick": 160000, "quick_time": 150, "thorough": 8000000, "thorough_time": 900}},
     "rule": "one evaluation = one seeded simulated execution of 2-4 threads on a cds_wfs, cds_lfs or legacy cds_lfs_rcu stack: push, pop (blocking, with_state, non-blocking), pop_all + iteration, empty(), "
             "pop-then-re-push of the same node, under the mutex-protected, single-consumer or RCU-protected scheme (any flavor; nodes freed or re-pushed only after synchronize_rcu()). "
             "Oracle: exact WGL check against a LIFO model (push reports was-non-empty, LAST state, pop_all returns the whole content in LIFO order) plus a final pop_all (conservation); tracked-arena use-after-free. "
@@ -97,7 +97,7 @@ PROPS["C11"] = {
 }
 PROPS["C12"] = {
     "level": "exploration",
-    "scenarios": {"lfq": {"quick": 200000, "thorough": 6000000, "thorough_time": 900}},
+    "scenarios": {"lfq": {"quick": 110000, "quick_time": 150, "thorough": 6000000, "thorough_time": 900}},
     "rule": "one evaluation = one seeded simulated execution of 2-4 threads enqueueing and dequeueing a cds_lfq queue inside read-side sections of a seed-chosen flavor; dequeued nodes are freed through call_rcu, "
             "freed after synchronize_rcu() or re-enqueued after a grace period. Oracles: exact WGL check against a FIFO model (NULL only if empty at some instant), returned nodes are user nodes, "
             "dummy nodes go through the tracked allocator (early reclamation = use-after-free report), cds_lfq_destroy_rcu at quiescence succeeds iff empty. "
@@ -111,7 +111,7 @@ _LFHT_COMMON = ("2-5 threads on a cds_lfht bound to a seed-chosen flavor; table 
                 "(0, ~0, top bit, equal modulo every small size, different keys with the same hash); partitioned resize threads enabled through the MIN_PARTITION knob; COUNT_COMMIT knob 1-2. ")
 PROPS["C05"] = {
     "level": "exploration",
-    "scenarios": {"lfht_lin": {"quick": 150000, "thorough": 4000000, "thorough_time": 1200}},
+    "scenarios": {"lfht_lin": {"quick": 100000, "quick_time": 150, "thorough": 4000000, "thorough_time": 1200}},
     "rule": "one evaluation = one seeded simulated execution: " + _LFHT_COMMON +
             "Operations add/add_unique/add_replace/replace/del/lookup/duplicate walk/full traversal inside read-side sections, optional explicit resizer thread, lazy resizes. "
             "Oracles: exact WGL check per key against a multiset-per-key model (non-deterministic results are relations); presence oracle on every walk/traversal "
@@ -122,7 +122,7 @@ PROPS["C05"] = {
 }
 PROPS["C06"] = {
     "level": "exploration",
-    "scenarios": {"lfht_unique": {"quick": 150000, "thorough": 4000000, "thorough_time": 1200}},
+    "scenarios": {"lfht_unique": {"quick": 100000, "quick_time": 150, "thorough": 4000000, "thorough_time": 1200}},
     "rule": "one evaluation = one seeded simulated execution: " + _LFHT_COMMON +
             "Every key is touched only by add_unique/add_replace/replace/del while readers run lookup+next_duplicate walks and first/next traversals, with concurrent resizes. "
             "Oracles: no walk or traversal ever returns two nodes of one key; WGL per key decides that exactly one concurrent add_unique wins and the others return a node present during their call, "
@@ -133,7 +133,7 @@ PROPS["C06"] = {
 }
 PROPS["C07"] = {
     "level": "exploration",
-    "scenarios": {"lfht_owner": {"quick": 150000, "thorough": 4000000, "thorough_time": 1200}},
+    "scenarios": {"lfht_owner": {"quick": 100000, "quick_time": 150, "thorough": 4000000, "thorough_time": 1200}},
     "rule": "one evaluation = one seeded simulated execution: " + _LFHT_COMMON +
             "Threads aim del/replace/add_replace at the same nodes (lookup, pause, then remove) while others add, look up, traverse and resize in the same bucket. "
             "Oracles: each node is obtained by exactly one call (two owners = immediate report; WGL set model makes every other del/replace fail); the owner frees the node through call_rcu or synchronize_rcu()+free "
@@ -144,7 +144,7 @@ PROPS["C07"] = {
 }
 PROPS["C09"] = {
     "level": "exploration",
-    "scenarios": {"lfht_resize": {"quick": 120000, "thorough": 3000000, "thorough_time": 1200}},
+    "scenarios": {"lfht_resize": {"quick": 80000, "quick_time": 150, "thorough": 3000000, "thorough_time": 1200}},
     "rule": "one evaluation = one seeded simulated execution: " + _LFHT_COMMON +
             "One or two resizer threads request sizes from {0, 1, powers of two, 3/5/6/7/12, > max, ULONG_MAX, 2^40+1} while others update and look up; lazy resizes by chain length and node counter; "
             "pthread_create EAGAIN in the partitioned helper and work-item allocation failure injected; destroy with resizes still queued. "
@@ -157,7 +157,7 @@ PROPS["C09"] = {
 
 PROPS["C08"] = {
     "level": "exploration",
-    "scenarios": {"lfht_seq": {"quick": 120000, "thorough": 3000000, "thorough_time": 1200}},
+    "scenarios": {"lfht_seq": {"quick": 80000, "quick_time": 150, "thorough": 3000000, "thorough_time": 1200}},
     "rule": "one evaluation = one seeded sequence of 5-60 cds_lfht operations (add, add_unique, add_replace, replace incl. -EINVAL and -ENOENT cases, del incl. double del, lookup, duplicate walk, first/next, "
             "count_nodes, resize to 0/1/powers of two/non powers/above max/ULONG_MAX, destroy) on 8 keys with adversarial hashes, issued one at a time by 1-2 application threads taking turns, over "
             "init 1..32, min_alloc 1..16 (incl. min > init), max 1..64/512/1024/0 (incl. max < init), all flag sets, order/chunk/mmap/default allocators, every flavor. After every operation the result is compared with a reference multimap "
@@ -169,7 +169,7 @@ PROPS["C08"] = {
 
 PROPS["C15"] = {
     "level": "exploration",
-    "scenarios": {"registry": {"quick": 200000, "thorough": 5000000, "thorough_time": 900}},
+    "scenarios": {"registry": {"quick": 80000, "quick_time": 150, "thorough": 5000000, "thorough_time": 900}},
     "rule": "one evaluation = one seeded simulated execution of 2-8 threads. memb/mb/qsbr: register/unregister churn (40% of the non-read operations) against both scanning phases of concurrent synchronize_rcu() callers, "
             "checked with the C01 interval/litmus/reclamation oracles (a registered thread is never skipped) and the C02 deadlock/bounded-progress oracles (a thread that left is never waited for). "
             "bp: threads register on first read-side use and unregister in the key destructor at exit; INIT_READER_COUNT knob 1/2/8 so the registry grows past its initial and doubled capacity, "
@@ -181,7 +181,7 @@ PROPS["C15"] = {
 
 PROPS["C18"] = {
     "level": "exploration",
-    "scenarios": {"rculist": {"quick": 250000, "thorough": 8000000, "thorough_time": 900}},
+    "scenarios": {"rculist": {"quick": 160000, "quick_time": 150, "thorough": 8000000, "thorough_time": 900}},
     "rule": "one evaluation = one seeded simulated execution: 1-2 updaters (mutually excluded by a simulated mutex) apply cds_list_add_rcu/add_tail_rcu/del_rcu/replace_rcu or cds_hlist add_head/del to fully initialised nodes and free removed nodes a grace period later "
             "(call_rcu or synchronize_rcu()+free into the quarantine), while 1-3 readers traverse inside read-side sections; preemption is possible at every individual pointer store of the updater (plain stores are instrumented) and stores may be TSO-delayed. "
             "Oracles: traversal terminates; no node twice; every node whose add (incl. lock release) returned before the traversal began and whose removal started after it ended is visited, in list order; visited nodes were in the list at some instant; payload intact; quarantine use-after-free. "
@@ -191,7 +191,7 @@ PROPS["C18"] = {
 }
 PROPS["C19"] = {
     "level": "exploration",
-    "scenarios": {"signals": {"quick": 200000, "thorough": 6000000, "thorough_time": 900}},
+    "scenarios": {"signals": {"quick": 130000, "quick_time": 150, "thorough": 6000000, "thorough_time": 900}},
     "rule": "one evaluation = one seeded simulated execution on memb, mb or bp: 1-4 threads run read sections (nesting 1-3), synchronize_rcu(), call_rcu() and updates while up to 3 signals per thread are delivered at seed-chosen memory accesses of the victim "
             "(any instrumented access, atomic, fence or system call in library or application code: inside rcu_read_lock/unlock, synchronize_rcu(), call_rcu(), bp auto-registration subject to the simulated mask), nested up to depth 2. "
             "The handler records rcu_read_ongoing(), runs a read-side section dereferencing the shared object, and compares. Oracles: state restored; handler sections and interrupted sections both take part in the C01 interval and reclamation oracles; deadlock detector. "
@@ -202,7 +202,7 @@ PROPS["C19"] = {
 
 PROPS["C16"] = {
     "level": "exploration",
-    "scenarios": {"fork": {"quick": 150000, "thorough": 4000000, "thorough_time": 900}},
+    "scenarios": {"fork": {"quick": 48000, "quick_time": 150, "thorough": 4000000, "thorough_time": 900}},
     "rule": "one evaluation = one seeded simulated execution containing one REAL fork(): the forking thread runs a generated prefix (call_rcu on default / per-thread / per-CPU helpers incl. RT ones, read sections, synchronize_rcu, rcu_barrier, "
             "an AUTO_RESIZE hash table with queued resize work), forks at a seed-chosen position bracketed by call_rcu_before_fork / [bp: urcu_bp_before_fork] ... and the matching after_fork handlers, with helper threads sleeping, polling or mid-batch; "
             "bp additionally with 0-3 other reader threads registering, inside sections or exiting at fork time. The child (only the forking thread exists; simulated helper threads are gone, their mutexes/futexes inherited as they were) immediately runs a read section, "
@@ -218,7 +218,7 @@ PROPS["C16"] = {
 
 PROPS["C17"] = {
     "level": "exploration",
-    "scenarios": {"progress": {"quick": 250000, "thorough": 8000000, "thorough_time": 900}},
+    "scenarios": {"progress": {"quick": 150000, "quick_time": 150, "thorough": 8000000, "thorough_time": 900}},
     "rule": "one evaluation = one seeded simulated execution on one structure (wfcqueue, wfstack, lfstack, rculfqueue, rculfhash, read-side of a seed-chosen flavor): 2-4 threads run a random prefix; "
             "about a third of the operations are executed SOLO: the issuing thread freezes every other simulated thread exactly where it stands (store buffers drained first) - between the tail exchange and the link store of an enqueue, "
             "between head exchange and next store of a push, after a logical delete and before its unlink, in the middle of a resize, inside synchronize_rcu() holding locks - runs the operation alone and is measured. "
@@ -231,7 +231,7 @@ PROPS["C17"] = {
 }
 PROPS["C20"] = {
     "level": "exploration",
-    "scenarios": {"uatomic": {"quick": 250000, "thorough": 8000000, "thorough_time": 900}},
+    "scenarios": {"uatomic": {"quick": 160000, "quick_time": 150, "thorough": 8000000, "thorough_time": 900}},
     "rule": "one evaluation = one seeded simulated execution against the default x86 implementation or the CONFIG_RCU_USE_ATOMIC_BUILTINS implementation (both compiled from /repo): "
             "(a) 2-4 threads apply add/sub/inc/dec/add_return/sub_return/cmpxchg-increment/or/and/xchg to 1-, 2-, 4- and 8-byte cells at odd offsets packed between bytes owned and rewritten by other threads, with a context switch possible at every access: "
             "final values must equal the truncated sums, per-thread bits and xchg tokens conserved, neighbours intact; "
